@@ -214,6 +214,9 @@ func TestVerif_C16(t *testing.T) {
 		}
 		key := specKey(c)
 		rng := l.Rng
+		if l.Batch%2 == 0 {
+			poisonRound(mw, allowed[0]) // hostile wrapped handler first (see poisonRound)
+		}
 		// systematic grid from allowed origins: method x header list x PNA
 		acrms := []string{"GET", "PUT", "put", "PATCH", "patch", "DELETE", "OPTIONS", "CHICKEN", "chicken", "UNLISTED", ""}
 		acrhs := [][]string{nil, {"x-listed-1"}, {"x-listed-1,x-listed-2"}, {"authorization"}, {"authorization,x-listed-1"}, {"content-type"}, {"x-unlisted"},
